@@ -7,6 +7,8 @@ LD = ["rlx", "acq", "sc"]
 ST = ["rlx", "rel", "sc"]
 RM = ["rlx", "ar", "sc"]
 FE = ["acq", "rel", "ar", "sc"]
+RN = ["rlx", "acq", "rel", "ar", "sc"]
+EXHAUSTIVE = {"MPCASF", "MPCAS", "FRMW", "RELAY"}
 
 
 def shapes():
@@ -30,6 +32,14 @@ def shapes():
         ("F2", {"x": 3}, [["st 1 1 rlx", "st 0 1 rel"], ["ld 0 rlx", "st 2 1 rel"], ["ld 2 acq", "fence {F}", "ld 1 rlx"]]),
         ("F3", {"x": 1}, [["st 0 1 {S}", "st 0 2 {S}"], ["st 0 3 {S}", "ld 0 {L}"]]),
         ("F16", {"x": 2}, [["st 0 1 {S}", "st 0 2 {S}", "st 1 1 rlx"], ["ld 1 rlx", "ld 0 {L}"]]),
+        # a compare-exchange that fails / may fail under every success ordering (a failed one synchronises with
+        # its failure ordering only)
+        ("MPCASF", {"x": 2}, [["st 0 1 rlx", "st 1 1 {S}"], ["cas 1 7 8 {N} {L}", "ld 0 rlx"]]),
+        ("MPCAS", {"x": 2}, [["st 0 1 rlx", "st 1 1 {S}"], ["cas 1 1 8 {N} {L}", "ld 0 rlx"]]),
+        # a release fence followed by the write half of an RMW of any ordering
+        ("FRMW", {"x": 2}, [["st 0 1 rlx", "fence {F}", "swap 1 1 {N}"], ["ld 1 {L}", "ld 0 rlx"]]),
+        # relay through one fence between a relaxed load and a relaxed store
+        ("RELAY", {"x": 3}, [["st 2 1 rlx", "st 0 1 {S}"], ["ld 0 rlx", "fence {F}", "st 1 1 rlx"], ["ld 1 {L}", "ld 2 rlx"]]),
     ]
 
 
@@ -37,10 +47,10 @@ def instantiate(name, cfg, threads, limit, r):
     slots = []
     for t in threads:
         for o in t:
-            for k in ("{S}", "{L}", "{M}", "{F}"):
+            for k in ("{S}", "{L}", "{M}", "{F}", "{N}"):
                 if k in o:
                     slots.append(k)
-    choices = {"{S}": ST, "{L}": LD, "{M}": RM, "{F}": FE}
+    choices = {"{S}": ST, "{L}": LD, "{M}": RM, "{F}": FE, "{N}": RN}
     combos = list(itertools.product(*[choices[k] for k in slots]))
     if len(combos) > limit:
         # always keep the uniform assignments, sample the rest
@@ -55,7 +65,7 @@ def instantiate(name, cfg, threads, limit, r):
         for t in threads:
             ops = []
             for o in t:
-                for k in ("{S}", "{L}", "{M}", "{F}"):
+                for k in ("{S}", "{L}", "{M}", "{F}", "{N}"):
                     if k in o:
                         o = o.replace(k, next(it))
                 ops.append(o)
@@ -85,7 +95,8 @@ def family(seed, quick):
     out = []
     per = 12 if quick else 100
     for name, cfg, threads in shapes():
-        out += instantiate(name, cfg, threads, per, r.fork(name))
+        # (the shapes whose point is one particular ordering combination are instantiated exhaustively)
+        out += instantiate(name, cfg, threads, 1000 if name in EXHAUSTIVE else per, r.fork(name))
     out += random_litmus(r.fork("rnd"), 120 if quick else 1000)
     return list(dict.fromkeys(out))
 
@@ -108,4 +119,12 @@ def race_family(seed, quick):
     hop = [["cwr 0 5", "st 0 1 {S}"], ["ld 0 {L}", "ifeq 1 v:1 1", "st 1 1 {S}"],
            ["ld 1 {L}", "ifeq 1 v:1 1", "crd 0"]]
     out += instantiate("MP2", {"x": 2, "c": 1}, hop, 40 if quick else 300, r)
+    # two hops, the middle thread relaying through ONE fence between a relaxed load and a relaxed store (the
+    # acquire half must take effect before the release half publishes)
+    relay = [["cwr 0 5", "st 0 1 {S}"], ["ld 0 rlx", "ifeq 1 v:1 2", "fence {F}", "st 1 1 rlx"],
+             ["ld 1 {L}", "ifeq 1 v:1 1", "crd 0"]]
+    out += instantiate("MPR", {"x": 2, "c": 1}, relay, 1000, r)
+    relay2 = [["cwr 0 5", "fence {F}", "st 0 1 rlx"], ["ld 0 rlx", "ifeq 1 v:1 2", "fence {F}", "st 1 1 rlx"],
+              ["ld 1 rlx", "fence {F}", "ifeq 2 v:1 1", "crd 0"]]
+    out += instantiate("MPR2", {"x": 2, "c": 1}, relay2, 1000, r)
     return list(dict.fromkeys(out))
